@@ -257,10 +257,12 @@ pub fn parse_width_digits() {
         Ok((Width::Fixed(v), rest)) => {
             assert!(s.b[0] != b'*' && d < s.n, "C12.width.accepts digits must be followed by more text");
             assert!(v as u64 == w, "C12.width.value decimal value of the width digits");
+            assert!(w <= 65535, "C12.width.range");
             assert!(rest.len() == s.n - d, "C12.width.rest");
         }
-        Err(FormatError::TruncatedFormatCode) => assert!(s.b[0] != b'*' && d == s.n, "C12.width.truncated"),
-        Err(_) => assert!(false, "C12.width.error_kind"),
+        Err(FormatError::TruncatedFormatCode) => assert!(s.b[0] != b'*' && (d == s.n || w > 65535), "C12.width.truncated"),
+        // a width that does not fit the 16-bit field is a format error (never a wrapped value)
+        Err(_) => assert!(w > 65535, "C12.width.error_kind only an over-large width may be rejected"),
     }
     let _ = try_parse_precision(s.as_str());
     kani::cover!(d == 5 && w > 65535, "five-digit width above 65535 reached");
@@ -632,6 +634,39 @@ consumption!(consume_pct_s, 2);
 consumption!(consume_dotstar_s, 4);
 //@harness name=consume_star_dotstar_s tier=thorough optional=1 timeout=3600 unwind=12 desc="'%*.*s': width, precision, value in that order" bounds="width/precision value 0..=3"
 consumption!(consume_star_dotstar_s, 5);
+//@harness tier=thorough optional=1 timeout=5400 desc="'%*.*d' with two *different* star values: the first value is the width, the second the precision, the third the number" bounds="width, precision 0..=5, number 0..=99"
+#[kani::proof]
+#[kani::unwind(26)]
+pub fn consume_star_dotstar_d() {
+    let w: u8 = kani::any();
+    let p: u8 = kani::any();
+    let v: u8 = kani::any();
+    kani::assume(w <= 5 && p <= 5 && v <= 99);
+    let vals = [Val::Num(NumValue::new(w as f64).unwrap()), Val::Num(NumValue::new(p as f64).unwrap()), Val::Num(NumValue::new(v as f64).unwrap())];
+    let mut want = Buf::new();
+    ref_format_int(&mut want, v as i64, b'd', false, false, false, false, false, w as usize, Some(p as usize));
+    #[cfg(verif_playback)]
+    {
+        println!("REPLAY-INPUT: width={} precision={} value={}", w, p, v);
+        println!("REPLAY-JSONNET: std.format(\"%*.*d\", [{}, {}, {}])", w, p, v);
+        println!("REPLAY-EXPECT: value {:?}", core::str::from_utf8(&want.b[..want.n.min(OUTN)]).unwrap());
+    }
+    let r = format_arr("%*.*d", &vals);
+    assert!(r.is_ok(), "C12.arity.ok the exact number of values must format");
+    let out = r.unwrap();
+    let ob = out.as_bytes();
+    assert!(ob.len() == want.n, "C12.order.star_len `*` width is consumed before `.*` precision");
+    let mut i = 0;
+    while i < OUTN {
+        if i < ob.len() && i < want.n {
+            assert!(ob[i] == want.b[i], "C12.order.star_text `*` width is consumed before `.*` precision");
+        }
+        i += 1;
+    }
+    kani::cover!(w == 5 && p == 2, "width above precision reached");
+    kani::cover!(w == 1 && p == 4, "precision above width reached");
+}
+
 //@harness name=consume_lit tier=thorough optional=1 timeout=3600 unwind=12 desc="'a%sb%%': literal text copied around the value" bounds="values: opaque tokens"
 consumption!(consume_lit, 6);
 
@@ -680,7 +715,7 @@ macro_rules! float_total {
 float_total!(float_f_prec0, 0, true);
 //@harness name=float_e_prec0 tier=thorough optional=1 timeout=3600 unwind=32 spurious="." desc="%.0e never panics (CBMC over-approximates powf used for the mantissa: every failure must reproduce natively to count)" bounds="value: every finite double; width <= 12; every flag subset"
 float_total!(float_e_prec0, 1, true);
-//@harness name=float_g_prec0 tier=quick timeout=900 unwind=32 desc="%.0g never panics" bounds="value: every finite double; width <= 12; every flag subset"
+//@harness name=float_g_prec0 tier=thorough timeout=3600 unwind=32 spurious="iv >= 0.0|render_integer receives sign" desc="%.0g never panics (the scientific branch uses powf, over-approximated by CBMC: a failure of render_integer's sign assertion counts only when it reproduces natively)" bounds="value: every finite double; width <= 12; every flag subset"
 float_total!(float_g_prec0, 2, true);
 //@harness tier=quick timeout=600 desc="%f with a precision beyond the double exponent range (10^precision is infinite): must not panic" bounds="precision 309..=320 and 65530..=65535, value: every finite double, width <= 12"
 #[kani::proof]
